@@ -4,6 +4,8 @@
 //! Case lines (segments separated by ` ; `, innermost wrapper first):
 //!   `E <GenEntry encoding> ; <wrapper> ; <wrapper> …`
 //!   `V <value encoding> ; <value wrapper> ; …`
+//!   `W <entry encoding whose `V` items may carry `@<value wrapper>` suffixes (parameters joined by `+`)> ; <wrapper> ; …`
+//!      (an entry whose values are wrapped values of a fixed menu of concrete types, see `menu_ok`)
 //! entry wrappers (strings are hex of UTF-8, `-` = empty):
 //!   `B` BoxEntry | `Mo <entry>` e.merge(other) | `Mg <entry>` other.merge(e) | `mr <entry>` e.merge_by_ref(&other) |
 //!   `mg <entry>` other.merge_by_ref(&e) | `D<N> <k~v>…` WithDimensions<E,N> | `W<N> <k~v>… / <name>…`
@@ -102,6 +104,164 @@ enum VW {
 enum Case {
     Entry(GenEntry, Vec<W>),
     Value(GVal, Vec<VW>),
+    /// an entry some of whose values sit under value wrappers, under entry wrappers
+    WEntry(VEntry, Vec<W>),
+}
+
+#[derive(Clone)]
+enum VI {
+    Plain(GItem),
+    /// name, plain value, value wrappers (one of the shapes of `menu_ok`), innermost first
+    Wrapped(String, GVal, Vec<VW>),
+}
+
+/// A plain entry some of whose values are wrapped values of a fixed menu of concrete types.
+#[derive(Clone)]
+struct VEntry {
+    items: Vec<VI>,
+    sample_group: Dims,
+}
+
+impl std::fmt::Debug for VEntry {
+    fn fmt(&self, f: &mut std::fmt::Formatter<'_>) -> std::fmt::Result {
+        write!(f, "VEntry({})", self.encode())
+    }
+}
+
+/// the concrete wrapped value types `VEntry::write` knows how to build
+fn menu_ok(ws: &[VW]) -> bool {
+    matches!(
+        ws,
+        [VW::Dims(1, _)]
+            | [VW::Dims(2, _), VW::Force(Mode::High)]
+            | [VW::Force(Mode::NoMetric), VW::Dims(0, _)]
+            | [VW::Arc_, VW::Some_]
+            | [VW::Box_, VW::None_]
+            | [VW::CowOwned, VW::Fmt(1)]
+            | [VW::Ref, VW::Dims(1, _), VW::Box_]
+            | [VW::Some_, VW::Fmt(0)]
+    )
+}
+
+impl VEntry {
+    fn tokens(&self) -> Vec<String> {
+        let mut out = vec![];
+        for it in &self.items {
+            match it {
+                VI::Plain(g) => out.push(GenEntry { items: vec![g.clone()], sample_group: vec![] }.encode()),
+                VI::Wrapped(n, b, st) => {
+                    let mut t = format!("V{}={}", hs(n), enc_val(b));
+                    for w in st {
+                        t.push('@');
+                        t.push_str(&w.encode().replace(' ', "+"));
+                    }
+                    out.push(t);
+                }
+            }
+        }
+        for (k, v) in &self.sample_group {
+            out.push(format!("G{}~{}", hs(k), hs(v)));
+        }
+        out
+    }
+    fn encode(&self) -> String {
+        let t = self.tokens();
+        if t.is_empty() { "_".into() } else { t.join(" ") }
+    }
+    fn decode(line: &str) -> Option<VEntry> {
+        let mut e = VEntry { items: vec![], sample_group: vec![] };
+        for tok in line.split(' ').filter(|t| !t.is_empty() && *t != "_") {
+            if tok.starts_with('V') && tok.contains('@') {
+                let mut parts = tok.split('@');
+                let (n, v) = parts.next()?[1..].split_once('=')?;
+                let st = parts.map(|w| VW::decode(&w.replace('+', " "))).collect::<Option<Vec<_>>>()?;
+                if !menu_ok(&st) {
+                    return None;
+                }
+                e.items.push(VI::Wrapped(uhs(n)?, dec_val(v)?, st));
+            } else {
+                let g = GenEntry::decode(tok)?;
+                e.items.extend(g.items.into_iter().map(VI::Plain));
+                e.sample_group.extend(g.sample_group);
+            }
+        }
+        Some(e)
+    }
+    /// the same entry with every value wrapper removed
+    fn strip(&self) -> GenEntry {
+        GenEntry {
+            items: self
+                .items
+                .iter()
+                .map(|it| match it {
+                    VI::Plain(g) => g.clone(),
+                    VI::Wrapped(n, b, _) => GItem::Value(n.clone(), b.clone()),
+                })
+                .collect(),
+            sample_group: self.sample_group.clone(),
+        }
+    }
+    /// model tokens: the in-band error entry expanded
+    fn model_items(&self) -> String {
+        let mut parts = vec![];
+        for tok in self.tokens() {
+            if let Some(m) = tok.strip_prefix('U') {
+                parts.push("CU".to_string());
+                parts.push(format!("V{}=S{}", hs("MetriqueValidationError"), m));
+            } else {
+                parts.push(tok);
+            }
+        }
+        if parts.is_empty() { "_".into() } else { parts.join(" ") }
+    }
+}
+
+impl Entry for VEntry {
+    fn write<'a>(&'a self, w: &mut impl EntryWriter<'a>) {
+        for it in &self.items {
+            match it {
+                VI::Plain(g) => match g {
+                    GItem::Timestamp(us) => w.timestamp(micros_to_system_time(*us)),
+                    GItem::AllowSplit(c) => w.config(c),
+                    GItem::OtherCfg(c) => w.config(c),
+                    GItem::EntryDims(_, c) => w.config(c),
+                    GItem::Unroutable(_, e) => e.write(w),
+                    GItem::Value(n, v) => w.value(n.as_str(), v),
+                },
+                VI::Wrapped(n, b, st) => {
+                    let n = n.as_str();
+                    match st.as_slice() {
+                        [VW::Dims(1, d)] => w.value(n, &mk_dims::<GVal, 1>(b.clone(), d)),
+                        [VW::Dims(2, d), VW::Force(Mode::High)] => {
+                            w.value(n, &ForceFlag::<_, HighStorageResolutionCtor>::from(mk_dims::<GVal, 2>(b.clone(), d)))
+                        }
+                        [VW::Force(Mode::NoMetric), VW::Dims(0, d)] => {
+                            w.value(n, &mk_dims::<_, 0>(ForceFlag::<GVal, NoMetricCtor>::from(b.clone()), d))
+                        }
+                        [VW::Arc_, VW::Some_] => w.value(n, &Some(Arc::new(b.clone()))),
+                        [VW::Box_, VW::None_] => w.value(n, &None::<Box<GVal>>),
+                        [VW::CowOwned, VW::Fmt(1)] => {
+                            let c: Cow<'_, GVal> = Cow::Owned(b.clone());
+                            w.value(n, &FormattedValue::<Cow<'_, GVal>, FCount>::new(&c))
+                        }
+                        [VW::Ref, VW::Dims(1, d), VW::Box_] => w.value(n, &Box::new(mk_dims::<&GVal, 1>(b, d))),
+                        [VW::Some_, VW::Fmt(0)] => {
+                            let o = Some(b.clone());
+                            w.value(n, &FormattedValue::<Option<GVal>, FId>::new(&o))
+                        }
+                        _ => panic!("{BAD_STACK}"),
+                    }
+                }
+            }
+        }
+    }
+    fn sample_group(&self) -> impl Iterator<Item = SampleGroupElement> {
+        self.sample_group
+            .iter()
+            .map(|(k, v)| (Cow::Owned(k.clone()), Cow::Owned(v.clone())))
+            .collect::<Vec<_>>()
+            .into_iter()
+    }
 }
 
 // ------------------------------------------------------------------------------------------------
@@ -316,6 +476,14 @@ impl Case {
                 }
                 s
             }
+            Case::WEntry(e, ws) => {
+                let mut s = format!("W {}", e.encode());
+                for w in ws {
+                    s.push_str(" ; ");
+                    s.push_str(&w.encode(false));
+                }
+                s
+            }
         }
     }
     fn decode(line: &str) -> Option<Case> {
@@ -325,6 +493,8 @@ impl Case {
             Some(Case::Entry(GenEntry::decode(e)?, segs.map(W::decode).collect::<Option<Vec<_>>>()?))
         } else if let Some(v) = head.strip_prefix("V ") {
             Some(Case::Value(dec_val(v.trim())?, segs.map(VW::decode).collect::<Option<Vec<_>>>()?))
+        } else if let Some(e) = head.strip_prefix("W ") {
+            Some(Case::WEntry(VEntry::decode(e)?, segs.map(W::decode).collect::<Option<Vec<_>>>()?))
         } else {
             None
         }
@@ -345,6 +515,14 @@ impl Case {
                 for w in ws {
                     s.push_str(" ; ");
                     s.push_str(&w.encode());
+                }
+                s
+            }
+            Case::WEntry(e, ws) => {
+                let mut s = format!("ent {}", e.model_items());
+                for w in ws {
+                    s.push_str(" ; ");
+                    s.push_str(&w.encode(true));
                 }
                 s
             }
@@ -680,8 +858,14 @@ impl<N: Fuel> Fuel for S<N> {
 
 /// Checks the grammar the static builders accept; `Err` says why not.
 fn valid_stack(ws: &[W]) -> Result<(), &'static str> {
+    valid_stack_with(ws, RUN)
+}
+
+/// `first`: static nesting allowed before the first `BoxEntry` (2 for `GenEntry`, 1 for `VEntry`)
+fn valid_stack_with(ws: &[W], first: usize) -> Result<(), &'static str> {
     // path: 0 = clone+static, 1 = static, 2 = borrowed
     let (mut path, mut run) = (0u8, 0usize);
+    let mut limit = first;
     let n_entry = ws.iter().position(|w| w.is_stream()).unwrap_or(ws.len());
     for w in &ws[n_entry..] {
         if !w.is_stream() {
@@ -707,9 +891,10 @@ fn valid_stack(ws: &[W]) -> Result<(), &'static str> {
             }
             path = 1;
             run = 0;
+            limit = RUN;
             continue;
         }
-        if run == RUN {
+        if run == limit {
             return Err("static run too long");
         }
         run += 1;
@@ -821,19 +1006,19 @@ fn run_streams<E: Entry>(e: &E, stream_ws: &[W]) -> Result<Recorded, String> {
 }
 
 /// the implementation: builds the real wrapped type and records what it writes
-fn run_entry(base: &GenEntry, ws: &[W]) -> Result<Recorded, String> {
+fn run_entry<B: Entry + Clone + Send + Sync + 'static, F: Fuel>(base: &B, ws: &[W]) -> Result<Recorded, String> {
     let n_entry = ws.iter().position(|w| w.is_stream()).unwrap_or(ws.len());
     let (entry_ws, stream_ws) = ws.split_at(n_entry);
     let r = catch(|| {
         if stream_ws.is_empty() {
             let mut v = RunV(None);
-            Run::go_c(base.clone(), entry_ws, &mut v);
+            F::go_c(base.clone(), entry_ws, &mut v);
             v.0.ok_or_else(|| "harness: visitor not called".to_string())
         } else if entry_ws.is_empty() {
             run_streams(base, stream_ws)
         } else {
             let mut v = BoxV(None);
-            Run::go_c(base.clone(), &entry_ws[..entry_ws.len() - 1], &mut v);
+            F::go_c(base.clone(), &entry_ws[..entry_ws.len() - 1], &mut v);
             let b = v.0.ok_or_else(|| "harness: visitor not called".to_string())?;
             run_streams(&b, stream_ws)
         }
@@ -1118,7 +1303,7 @@ fn check(c: &Case) -> Result<String, (String, String, String)> {
     match c {
         Case::Entry(base, ws) => {
             let plain = record(base);
-            let got = match run_entry(base, ws) {
+            let got = match run_entry::<GenEntry, Run>(base, ws) {
                 Ok(g) => g,
                 Err(e) => return Err(("panic-or-error".into(), format!("wrapped entry failed: {e}"), e)),
             };
@@ -1137,6 +1322,40 @@ fn check(c: &Case) -> Result<String, (String, String, String)> {
                     format!("sample group of the wrapped entry differs: want {}", show_recorded(&want)),
                     shown,
                 ));
+            }
+            Ok(shown)
+        }
+        Case::WEntry(ve, ws) => {
+            // plain entry, then the value wrappers' documented additions, then the entry wrappers'
+            let mut plain = record(&ve.strip());
+            let mut idx = 0;
+            for it in &ve.items {
+                match it {
+                    VI::Plain(GItem::Unroutable(..)) => idx += 2,
+                    VI::Plain(_) => idx += 1,
+                    VI::Wrapped(_, b, st) => {
+                        if let Some(RCall::Val(_, v)) = plain.0.get_mut(idx) {
+                            *v = expected_value(v, b, st);
+                        }
+                        idx += 1;
+                    }
+                }
+            }
+            let got = match run_entry::<VEntry, S<Z>>(ve, ws) {
+                Ok(g) => g,
+                Err(e) => return Err(("panic-or-error".into(), format!("wrapped entry failed: {e}"), e)),
+            };
+            let want = expected_entry(&plain, ws, &|o| record(o));
+            let shown = show_recorded(&got);
+            if got.0 != want.0 {
+                return Err((
+                    "log".into(),
+                    format!("call log of the wrapped entry (with wrapped values) differs from plain + documented additions: want {}", show_recorded(&want)),
+                    shown,
+                ));
+            }
+            if got.1 != want.1 {
+                return Err(("sample_group".into(), format!("sample group differs: want {}", show_recorded(&want)), shown));
             }
             Ok(shown)
         }
@@ -1160,6 +1379,16 @@ fn valid(c: &Case) -> Result<(), &'static str> {
     match c {
         Case::Entry(_, ws) => valid_stack(ws),
         Case::Value(_, ws) => valid_vstack(ws),
+        Case::WEntry(e, ws) => {
+            for it in &e.items {
+                if let VI::Wrapped(_, _, st) = it {
+                    if !menu_ok(st) {
+                        return Err("wrapped value outside the menu of concrete types");
+                    }
+                }
+            }
+            valid_stack_with(ws, 1)
+        }
     }
 }
 
@@ -1225,6 +1454,16 @@ fn shrink(c: &Case) -> Case {
             let ws2 = shrink_list(ws, |s| fails(&Case::Value(base.clone(), s.to_vec())));
             Case::Value(base.clone(), ws2)
         }
+        Case::WEntry(base, ws) => {
+            let ws2 = shrink_list(ws, |s| fails(&Case::WEntry(base.clone(), s.to_vec())));
+            let items = shrink_list(&base.items, |s| {
+                fails(&Case::WEntry(VEntry { items: s.to_vec(), sample_group: base.sample_group.clone() }, ws2.clone()))
+            });
+            let sg = shrink_list(&base.sample_group, |s| {
+                fails(&Case::WEntry(VEntry { items: items.clone(), sample_group: s.to_vec() }, ws2.clone()))
+            });
+            Case::WEntry(VEntry { items, sample_group: sg }, ws2)
+        }
     }
 }
 
@@ -1232,6 +1471,7 @@ fn site_key(c: &Case, class: &str) -> String {
     let kinds: Vec<&str> = match c {
         Case::Entry(_, ws) => ws.iter().map(|w| w.kind()).collect(),
         Case::Value(_, ws) => ws.iter().map(|w| w.kind()).collect(),
+        Case::WEntry(_, ws) => std::iter::once("wrapped-values").chain(ws.iter().map(|w| w.kind())).collect(),
     };
     format!("wrappers:{}:{}", class, if kinds.is_empty() { "plain".to_string() } else { kinds.join("/") })
 }
@@ -1351,6 +1591,11 @@ fn gen_mode(rng: &mut Rng) -> Mode {
 
 /// a random valid stack of exactly `depth` wrappers (or fewer when the grammar ends it)
 fn gen_stack(rng: &mut Rng, depth: usize, base: &GenEntry) -> Vec<W> {
+    gen_stack_with(rng, depth, base, RUN)
+}
+
+fn gen_stack_with(rng: &mut Rng, depth: usize, base: &GenEntry, first: usize) -> Vec<W> {
+    let mut limit = first;
     let n_stream = if depth > 0 && rng.chance(3, 10) { rng.range(1, depth.min(3) as u64) as usize } else { 0 };
     let n_entry = depth - n_stream;
     let mut names = names_of(base);
@@ -1358,7 +1603,7 @@ fn gen_stack(rng: &mut Rng, depth: usize, base: &GenEntry) -> Vec<W> {
     let (mut path, mut run) = (0u8, 0usize);
     while ws.len() < n_entry {
         let last = ws.len() + 1 == n_entry;
-        let must_box = (run == RUN) || (last && n_stream > 0);
+        let must_box = (run == limit) || (last && n_stream > 0);
         if must_box {
             if path == 2 {
                 break;
@@ -1366,6 +1611,7 @@ fn gen_stack(rng: &mut Rng, depth: usize, base: &GenEntry) -> Vec<W> {
             ws.push(W::Boxed);
             path = 1;
             run = 0;
+            limit = RUN;
             continue;
         }
         let w = loop {
@@ -1405,6 +1651,7 @@ fn gen_stack(rng: &mut Rng, depth: usize, base: &GenEntry) -> Vec<W> {
             W::Boxed => {
                 path = 1;
                 run = 0;
+                limit = RUN;
             }
             other => {
                 run += 1;
@@ -1477,10 +1724,41 @@ fn gen_vstack(rng: &mut Rng, depth: usize) -> Vec<VW> {
     ws
 }
 
+fn gen_menu_stack(rng: &mut Rng) -> Vec<VW> {
+    match rng.below(8) {
+        0 => vec![VW::Dims(1, gen_dims(rng))],
+        1 => vec![VW::Dims(2, gen_dims(rng)), VW::Force(Mode::High)],
+        2 => vec![VW::Force(Mode::NoMetric), VW::Dims(0, gen_dims(rng))],
+        3 => vec![VW::Arc_, VW::Some_],
+        4 => vec![VW::Box_, VW::None_],
+        5 => vec![VW::CowOwned, VW::Fmt(1)],
+        6 => vec![VW::Ref, VW::Dims(1, gen_dims(rng)), VW::Box_],
+        _ => vec![VW::Some_, VW::Fmt(0)],
+    }
+}
+
+fn gen_ventry(rng: &mut Rng) -> VEntry {
+    let g = gen_base(rng, 6);
+    let items = g
+        .items
+        .into_iter()
+        .map(|it| match it {
+            GItem::Value(n, v) if rng.chance(2, 3) => VI::Wrapped(n, v, gen_menu_stack(rng)),
+            other => VI::Plain(other),
+        })
+        .collect();
+    VEntry { items, sample_group: g.sample_group }
+}
+
 fn gen_case(rng: &mut Rng, max_depth: usize) -> Case {
     if rng.chance(1, 4) {
         let d = rng.range(0, VDEPTH as u64) as usize;
         Case::Value(gen_val(rng), gen_vstack(rng, d))
+    } else if rng.chance(1, 4) {
+        let base = gen_ventry(rng);
+        let d = rng.range(0, max_depth as u64) as usize;
+        let ws = gen_stack_with(rng, d, &base.strip(), 1);
+        Case::WEntry(base, ws)
     } else {
         let base = gen_base(rng, 6);
         let d = match rng.below(10) {
@@ -1546,6 +1824,26 @@ fn describe(rep: &mut Report, c: &Case, shown: &str) {
                 rep.bump("wrapped log empty");
             }
         }
+        Case::WEntry(base, ws) => {
+            rep.bump(&format!("entry-over-wrapped-values depth:{}", ws.len()));
+            for w in ws {
+                rep.bump(&format!("wrapper:{}", w.kind()));
+            }
+            for it in &base.items {
+                if let VI::Wrapped(_, _, st) = it {
+                    rep.bump(&format!(
+                        "wrapped value:{}",
+                        st.iter().map(|w| w.kind()).collect::<Vec<_>>().join("/")
+                    ));
+                }
+            }
+            if !base.sample_group.is_empty() {
+                rep.bump("base with sample group");
+            }
+            if shown.starts_with("_ ") {
+                rep.bump("wrapped log empty");
+            }
+        }
         Case::Value(base, ws) => {
             rep.bump(&format!("value-stack depth:{}", ws.len()));
             for w in ws {
@@ -1565,6 +1863,9 @@ fn nontrivial(c: &Case, shown: &str) -> bool {
     match c {
         Case::Entry(_, ws) => !ws.is_empty() && !shown.starts_with("_ "),
         Case::Value(_, ws) => !ws.is_empty() && shown != "N",
+        Case::WEntry(e, ws) => {
+            !ws.is_empty() && !shown.starts_with("_ ") && e.items.iter().any(|i| matches!(i, VI::Wrapped(..)))
+        }
     }
 }
 
@@ -1611,6 +1912,7 @@ fn run_batch(rep: &mut Report, args: &Args, cases: &[Case], sample_every: usize)
                     let comp = match &cases[*ci] {
                         Case::Entry(..) => "wrappers/entry-stack",
                         Case::Value(..) => "wrappers/value-stack",
+                        Case::WEntry(..) => "wrappers/entry-stack-over-wrapped-values",
                     };
                     rep.disagreement(comp, &cases[*ci].encode(), got, reply);
                 }
@@ -1688,6 +1990,21 @@ fn systematic_cases(rng: &mut Rng) -> Vec<Case> {
             }
         }
     }
+    let wbase = || {
+        VEntry::decode(
+            "T5 V41=Mu436f756e74:h:4b~76:u1;u2;u3@d1+44~64 V42=Mn:-:4b~76:u1@d2+44~64+45~65@fh V43=Mn:h:.:f3ff0000000000000@fx@d0+44~64 \
+             V44=Mn:x:.:u4@a@o V45=S61@x@on V46=Mn:-:.:u1;u2@co@t1 V47=Mn:-:4b~76:u7@r@d1+44~64@x V48=E62@o@t0 V49=S73 CS G4f70~46 G53~32 G54~33",
+        )
+        .unwrap()
+    };
+    for a in kinds(rng) {
+        for ws in [vec![a.clone()], vec![a.clone(), W::Boxed], vec![W::Boxed, a.clone()], vec![W::Boxed, a.clone(), W::Boxed]] {
+            if valid_stack_with(&ws, 1).is_ok() {
+                out.push(Case::WEntry(wbase(), ws));
+            }
+        }
+    }
+    out.push(Case::WEntry(wbase(), vec![]));
     let vbase = || dec_val("Mu436f756e74:h:415a~61:u7;f3ff8000000000000").unwrap();
     let vkinds = || {
         vec![
@@ -1731,6 +2048,14 @@ fn neighbour(rng: &mut Rng, c: &Case, max_depth: usize) -> Case {
             2 => {
                 let d = rng.range(1, max_depth as u64) as usize;
                 Case::Entry(base.clone(), gen_stack(rng, d, base))
+            }
+            _ => gen_case(rng, max_depth),
+        },
+        Case::WEntry(base, ws) => match rng.below(3) {
+            0 => Case::WEntry(gen_ventry(rng), ws.clone()),
+            1 => {
+                let k = rng.range(0, ws.len() as u64) as usize;
+                Case::WEntry(base.clone(), ws[..k].to_vec())
             }
             _ => gen_case(rng, max_depth),
         },
@@ -1778,7 +2103,7 @@ fn main() {
     run_batch(&mut rep, &args, &first, 211);
 
     // random stacks, sharded
-    let (shards, per_shard, chunk) = if args.thorough() { (12u64, 1_000_000usize, 25_000usize) } else { (3u64, 60_000usize, 20_000usize) };
+    let (shards, per_shard, chunk) = if args.thorough() { (12u64, 600_000usize, 25_000usize) } else { (3u64, 60_000usize, 20_000usize) };
     let forks: Vec<Rng> = (0..shards).map(|i| rng.fork(i)).collect();
     let reports: Vec<Report> = std::thread::scope(|sc| {
         let handles: Vec<_> = forks
